@@ -33,6 +33,8 @@ def _ret_type(schema, m) -> str:
     k = m["k"]
     if k in ("num", "fn", "field"):
         return m["ctype"]
+    if k == "enum":
+        return m["enum"]
     if k == "vec":
         base = f"std::vector<{m['ctype']}>"
         return {"value": base, "cref": f"const {base}&", "ptr": f"const {base}*"}[m.get("ret_by", "value")]
@@ -70,6 +72,10 @@ def class_header(schema, cls: str) -> str:
             (deps_top if byval else deps_bottom).append(dep)
             o2, s2, c2 = _ns_open(m["cls"])
             fwd.append(f"{o2}class {s2}; {c2}")
+    for layer in c.get("deref_to", []):
+        deps_bottom.append(schema["classes"][layer]["header"])
+        o2, s2, c2 = _ns_open(layer)
+        fwd.append(f"{o2}class {s2}; {c2}")
     fw = "atlas_fw.h" if schema["backend"] == "atlas" else "cms_fw.h"
     out = ["#pragma once", f'#include "{fw}"']
     out += [f'#include "{d}"' for d in dict.fromkeys(deps_top)]
@@ -79,6 +85,8 @@ def class_header(schema, cls: str) -> str:
     out.append(f"{opn}class {short} {{ public:")
     out.append("  const mon::Obj *o = nullptr;")
     out.append(f"  static void mon_anchor() {{ {_lib_fn(lib) + '();' if lib else ''} }}")
+    for en, vals in c.get("enums", {}).items():
+        out.append(f"  enum {en} {{ {', '.join(vals)} }};")
     fields = [(n, m) for n, m in c["members"].items() if m["k"] == "field"]
     for n, m in fields:
         out.append(f"  {m['ctype']} {n} = 0;")
@@ -92,6 +100,8 @@ def class_header(schema, cls: str) -> str:
         if k == "num":
             conv = f'(o->num("{n}") != 0)' if m["ctype"] == "bool" else f'({m["ctype"]})o->num("{n}")'
             out.append(f"  {rt} {n}() const {{ mon_anchor(); return {conv}; }}")
+        elif k == "enum":
+            out.append(f"  {rt} {n}() const {{ mon_anchor(); return ({rt})(int)o->num(\"{n}\"); }}")
         elif k == "fn":
             ps = ", ".join(f"{t} {p}" for p, t in m["params"])
             out.append(f"  {rt} {n}({ps}) const {{ mon_anchor(); return ({m['ctype']})({m['cxx']}); }}")
@@ -313,7 +323,7 @@ def serialize_events(schema, events: List[Dict[str, Any]]) -> str:
                     continue
                 m = members[k]
                 kk = m["k"]
-                if kk in ("num", "field"):
+                if kk in ("num", "field", "enum"):
                     parts.append(f"num:{k}={_fmt(v)}")
                 elif kk == "vec":
                     parts.append(f"vec:{k}={';'.join(_fmt(x) for x in v)}")
